@@ -1494,6 +1494,55 @@ where
         self.after(P14, P14);
     }
 
+    /// Large capacities: start from a generated fill level (see maphist::prefill).
+    pub fn prefill(&mut self, sel: u8, mode: u8) {
+        let u = self.univ as usize;
+        let target = match sel % 4 {
+            0 => N,
+            1 => N - 1,
+            2 => N.saturating_sub(2 + (mode as usize % 6)),
+            _ => scale(mode, N + 1),
+        }
+        .min(u);
+        let gcd = |mut a: usize, mut b: usize| {
+            while b != 0 {
+                let t = a % b;
+                a = b;
+                b = t;
+            }
+            a
+        };
+        let mut stride = 1 + (mode as usize % 11);
+        while gcd(stride, u) != 1 {
+            stride += 1;
+        }
+        let off = (mode as usize >> 2) % u;
+        self.cx.cur_op = "insert";
+        self.cur_target = 0;
+        {
+            let slot = self.slots[0].as_mut().unwrap();
+            for i in 0..target {
+                let k = ((i * stride + off) % u) as u8;
+                let key = KD::key(k);
+                let kid = KD::kid(&key);
+                let m = &mut slot.c.m;
+                let r = tl::lib(move || m.insert(key));
+                if r == Ok(true) {
+                    slot.model.insert(k, kid);
+                } else if r == Err(Pk::Injected) {
+                    self.faulted = true;
+                    self.ever_faulted = true;
+                    break;
+                }
+            }
+            if slot.model.len() == N {
+                self.cx.bump(S::reached_full);
+            }
+            self.cx.add(S::prefilled, slot.model.len() as u64);
+        }
+        self.after(P07, P12);
+    }
+
     pub fn finish(mut self) {
         self.cx.cur_op = "final-drop";
         for w in (0..2).rev() {
@@ -1588,7 +1637,7 @@ where
         tl::liar_off();
     }
     tl::fuse_arm(if case.fuse >= 0 { case.fuse as i64 } else { -1 });
-    let mut univ = case.univ.max(1).min(24);
+    let mut univ = case.univ.max(1).min(if N > 17 { 96 } else { 24 });
     if univ > KD::MAX_UNIV {
         univ = KD::MAX_UNIV;
     }
@@ -1610,6 +1659,9 @@ where
         groups: 0,
         dup_paths: 0,
     };
+    if N > 17 {
+        e.prefill(case.cap2, case.mode);
+    }
     for (i, op) in case.ops.iter().enumerate() {
         e.cx.step = i;
         if let Err(payload) = std::panic::catch_unwind(std::panic::AssertUnwindSafe(|| e.step(*op))) {
@@ -1641,8 +1693,8 @@ pub fn run_dyn(case: &Case, cx: &mut Ctx) {
     };
     let n = mmv_base::capacity_of(&Case { kind, ..case.clone() });
     match kind {
-        0 => mmv_base::by_cap!(run, Tracked, n, case, cx, [0, 1, 2, 3, 4, 6, 9, 17]),
-        1 => mmv_base::by_cap!(run, Plain, n, case, cx, [0, 1, 2, 3, 4, 6, 9, 17]),
+        0 => mmv_base::by_cap!(run, Tracked, n, case, cx, [0, 1, 2, 3, 4, 6, 9, 17, 33, 70]),
+        1 => mmv_base::by_cap!(run, Plain, n, case, cx, [0, 1, 2, 3, 4, 6, 9, 17, 33, 70]),
         2 => mmv_base::by_cap!(run, Str, n, case, cx, [0, 1, 2, 3, 4, 6]),
         4 => mmv_base::by_cap!(run, ZstKey, n, case, cx, [0, 1]),
         _ => mmv_base::by_cap!(run, NoDrop, n, case, cx, [0, 1, 2, 3, 4, 6]),
